@@ -29,7 +29,11 @@ NONDYADIC = [(51, 0.0, 13.1), (21, 0.0, 0.3), (51, -100.0, -99.7), (11, -1.3, 2.
              (21, 0.0, 13.1), (11, 0.0, 0.3), (2, -0.3, 0.6), (51, 0, 10)]
 # large magnitudes, all-negative and narrow-at-large-offset ranges; num_atoms at the constructor edge that still works (2)
 LARGE = [(11, -1000.0, 1000.0), (5, 1000.0, 1001.0), (21, -20000.0, -100.0), (2, -1.0e6, 1.0e6), (3, 0.0, 1.0e5)]
-PREPS = ["fresh", "learned", "clone", "mutated", "mutated_param", "reloaded", "chain"]
+PREPS = ["fresh", "learned", "clone", "mutated", "mutated_param", "reloaded", "chain", "failed_learn", "learned_twice", "after_other_agent"]
+# dtypes of reward / done / action columns that learn() accepts (float64 and bool columns raise loudly: the buffers cast to float32)
+R_DT = ["float32", "int64", "int32"]
+D_DT = ["float32", "int64", "uint8"]
+A_DT = ["int64", "float32", "int32"]
 OBS_KINDS = ["vector", "image", "dict"]
 GAMMAS = [0.99, 0.5, 1.0, 0.9, 0.25]
 CLASSES = ["inside", "on_atom", "above", "below", "at_vmax", "at_vmin", "far_above", "far_below", "on_atom_shift", "inside"]
@@ -90,7 +94,7 @@ class C18(vlib.Driver):
 
     # ---------------------------------------------------------------- generation
     def one_case(self, rng, cfg, B=None, mode=None, classes=None, gamma=None, nstep=None, A=None, prep=None,
-                 source=None, obs_kind=None):
+                 source=None, obs_kind=None, dtypes=None, peaked=None):
         N, vmin, vmax = cfg
         B = B or (rng.randint(1, 3) if N > 21 else rng.randint(1, 8) if N <= 5 else rng.randint(1, 5))
         A = A or rng.choice([2, 3] if N <= 21 else [2])
@@ -121,9 +125,23 @@ class C18(vlib.Driver):
                 "prep": prep or rng.choice(["fresh", "fresh", "fresh"] + PREPS),
                 "source": source or ("buffer" if rng.random() < 0.2 else "direct"),
                 "obs_kind": obs_kind or (rng.choice(["image", "dict"]) if (N <= 11 and rng.random() < 0.15) else "vector"),
-                "stream_seed": rng.randrange(10 ** 6)}
+                "stream_seed": rng.randrange(10 ** 6),
+                "dtypes": dtypes or (["float32", "float32", "int64"] if rng.random() < 0.7
+                                     else [rng.choice(R_DT), rng.choice(D_DT), rng.choice(A_DT)]),
+                # peaked return distributions: many atoms below the 1e-3 clamp of the head
+                "peaked": (rng.random() < 0.25) if peaked is None else peaked}
+
+    @staticmethod
+    def fix_int_rewards(case):
+        if case["dtypes"][0] != "float32" and case.get("source", "direct") == "direct":
+            for r in case["rows1"] + case["rowsn"]:
+                r["r"] = float(round(max(-2.0e9, min(2.0e9, r["r"]))))
+        return case
 
     def generate(self, tier, rng):
+        return [self.fix_int_rewards(c) for c in self.generate_raw(tier, rng)]
+
+    def generate_raw(self, tier, rng):
         cases = []
         # boundary-complete stream: every range x every reward class at the last row and at the first row
         for cfg in DYADIC + NONDYADIC:
@@ -132,6 +150,8 @@ class C18(vlib.Driver):
                 continue
             for cls in ["on_atom", "above", "below", "at_vmax", "at_vmin", "inside"]:
                 if tier == "quick" and N > 21 and cls in ("inside", "below"):
+                    continue
+                if tier == "quick" and cls == "inside" and cfg in NONDYADIC:      # B = 2 rows already carry an "inside" first row
                     continue
                 B = 2 if N <= 21 else 1
                 cases.append(self.one_case(rng, cfg, B=B, classes=["inside", cls] if B == 2 else [cls],
@@ -157,7 +177,22 @@ class C18(vlib.Driver):
                                            prep=prep, obs_kind=obs_kind, source=source, mode=mode))
         for prep in ("fresh", "learned", "clone", "mutated"):       # the other source for the vector kind
             cases.append(self.one_case(rng, (5, 0.0, 0.7), prep=prep, obs_kind="vector", source="buffer", mode="combined"))
-        nseed = 30 if tier == "quick" else 300
+        # every accepted (reward dtype, done dtype) pair, action dtypes cycling; integer rewards on a non-integer support
+        k = 0
+        for rdt in R_DT:
+            for ddt in D_DT:
+                cfg = [(5, 0.0, 4.0), (5, 0.0, 0.7), (11, -1.3, 2.9)][k % 3]
+                cases.append(self.one_case(rng, cfg, B=2, dtypes=[rdt, ddt, A_DT[k % 3]], mode=["one", "nstep", "combined"][k % 3],
+                                           classes=["inside", "on_atom", "above"], gamma=[0.5, 0.99, 1.0][k % 3]))
+                k += 1
+        # peaked distributions (clamp at 1e-3 active on most atoms), every mode, N up to 51
+        for cfg, mode in (((51, 0.0, 200.0), "one"), ((11, -5.0, 5.0), "nstep"), ((21, 0.0, 13.1), "combined"), ((5, 0.0, 4.0), "combined")):
+            cases.append(self.one_case(rng, cfg, peaked=True, mode=mode, prep="fresh"))
+            cases.append(self.one_case(rng, cfg, peaked=True, mode=mode, prep="learned_twice"))
+        for prep in ("failed_learn", "learned_twice", "after_other_agent"):
+            for source in ("direct", "buffer"):
+                cases.append(self.one_case(rng, (5, -2.0, 2.0), prep=prep, source=source, mode="combined"))
+        nseed = 12 if tier == "quick" else 250
         for i in range(nseed):
             cfg = rng.choice(DYADIC + NONDYADIC)
             if tier == "quick" and cfg[0] > 21 and rng.random() < 0.6:
@@ -220,6 +255,17 @@ class C18(vlib.Driver):
                     path.unlink()
         if prep == "learned":
             return learned(ag)
+        if prep == "learned_twice":           # the same batch OBJECTS handed to learn twice (no clone in between)
+            for _ in range(2):
+                ag.learn(warm[0], n_experiences=(warm[1] if case["mode"] != "one" else None), per=True)
+            return ag
+        if prep == "failed_learn":            # a learn() that raises (one row too many), caught by the caller; the agent is used afterwards
+            bad = torch.cat([warm[0], warm[0][:1]], 0)
+            try:
+                ag.learn(bad, n_experiences=(torch.cat([warm[1], warm[1][:1]], 0) if case["mode"] != "one" else None), per=True)
+            except Exception:  # noqa: BLE001
+                pass
+            return ag
         if prep == "clone":
             return learned(ag).clone()
         if prep == "mutated":                 # observed right after the mutation, no learn step in between
@@ -245,24 +291,32 @@ class C18(vlib.Driver):
             net_config = {"encoder_config": {"hidden_size": [16]}}
         else:
             net_config = {"encoder_config": {"hidden_size": [16], "activation": "ReLU"}, "head_config": {"hidden_size": [16]}}
+        if case.get("prep") == "after_other_agent":
+            # another RainbowDQN of the same batch size but other num_atoms / support has been used in this process just before
+            other = RainbowDQN(obs_space, spaces.Discrete(A), batch_size=B, num_atoms=N + 2, v_min=case["vmin"] - 1.0, v_max=case["vmax"] + 3.0,
+                               n_step=case["nstep"], gamma=0.75, net_config=net_config)
+            other._dqn_loss(self.sample_obs(kind, B), torch.zeros(B, 1, dtype=torch.long), torch.ones(B, 1), self.sample_obs(kind, B),
+                            torch.zeros(B, 1), 0.75)
         ag = RainbowDQN(obs_space, spaces.Discrete(A), batch_size=B, num_atoms=N, v_min=case["vmin"], v_max=case["vmax"],
                         n_step=case["nstep"], gamma=case["gamma"], combined_reward=(case["mode"] == "combined"),
                         prior_eps=case["prior_eps"], net_config=net_config)
         with torch.no_grad():               # make online and target differ and the distributions far from uniform
             for net in (ag.actor, ag.actor_target):
                 for p in net.parameters():
-                    p.add_((0.6 if kind == "vector" else 0.3) * torch.randn_like(p))
+                    p.add_((0.6 if kind == "vector" else 0.3) * (4.0 if case.get("peaked") else 1.0) * torch.randn_like(p))
 
         ws = self.case_weights(case)
         wt = torch.tensor(ws, dtype=torch.float32)
         wt = wt.reshape(B, 1) if case.get("wshape", "col") == "col" else wt.reshape(B)
 
+        dts = case.get("dtypes", ["float32", "float32", "int64"])
+
         def batch(rows, w=wt):
             return TensorDict({
                 "obs": self.sample_obs(kind, B), "next_obs": self.sample_obs(kind, B),
-                "action": torch.tensor([[r["a"]] for r in rows], dtype=torch.long),
-                "reward": torch.tensor([[r["r"]] for r in rows], dtype=torch.float32),
-                "done": torch.tensor([[float(r["d"])] for r in rows], dtype=torch.float32),
+                "action": torch.tensor([[r["a"]] for r in rows], dtype=getattr(torch, dts[2])),
+                "reward": torch.tensor([[r["r"]] for r in rows], dtype=getattr(torch, dts[0])),
+                "done": torch.tensor([[r["d"]] for r in rows], dtype=getattr(torch, dts[1])),
                 "weights": w, "idxs": torch.arange(B)}, batch_size=[B])
         if case.get("prep", "fresh") != "fresh":
             ones = torch.ones(B, 1)
@@ -285,9 +339,13 @@ class C18(vlib.Driver):
         for t in range(T):
             r = pool[t % len(pool)]
             o, o2 = self.sample_obs(kind, 1), self.sample_obs(kind, 1)
-            tr = Transition(obs=o, action=torch.tensor([rng.randrange(A)]), reward=torch.tensor([r["r"]], dtype=torch.float32),
-                            next_obs=o2, done=torch.tensor([1.0 if (r["d"] and rng.random() < 0.6) else 0.0]),
-                            batch_size=[1]).to_tensordict()
+            dn = bool(r["d"] and rng.random() < 0.6)
+            # the Python / numpy / torch type of a field differs from transition to transition (as env outputs do)
+            rew = [torch.tensor([r["r"]], dtype=torch.float32), np.array([r["r"]], dtype=np.float64),
+                   torch.tensor([r["r"]], dtype=torch.float64), np.array([r["r"]], dtype=np.float32)][t % 4]
+            don = [torch.tensor([float(dn)]), np.array([dn]), torch.tensor([dn]), np.array([float(dn)], dtype=np.float32)][t % 4]
+            act = [torch.tensor([rng.randrange(A)]), np.array([rng.randrange(A)], dtype=np.int64), np.array([rng.randrange(A)], dtype=np.int32)][t % 3]
+            tr = Transition(obs=o, action=act, reward=rew, next_obs=o2, done=don, batch_size=[1]).to_tensordict()
             one = nsb.add(tr)
             if one is not None:
                 per.add(one)
@@ -337,7 +395,17 @@ class C18(vlib.Driver):
                 online = ag.actor(nx, q=False)
                 qv = ag.actor(nx)
                 target = ag.actor_target(nx, q=False)
-                logp = ag.actor(ox, q=False, log=True)
+                cap, hooks = {}, []
+                head = getattr(ag.actor, "head_net", None)
+                if part == "1" and N <= 21 and hasattr(head, "model") and hasattr(head, "advantage_net"):
+                    # value and advantage streams of the dueling head (row 0), captured while the log-distribution is computed
+                    hooks.append(head.model.register_forward_hook(lambda m_, i_, o_: cap.__setitem__("v", o_.detach())))
+                    hooks.append(head.advantage_net.register_forward_hook(lambda m_, i_, o_: cap.__setitem__("adv", o_.detach())))
+                try:
+                    logp = ag.actor(ox, q=False, log=True)
+                finally:
+                    for h_ in hooks:
+                        h_.remove()
                 logp_next = ag.actor(nx, q=False, log=True)
             rec = {"online": online.tolist(), "q": qv.tolist(), "target": target.tolist(), "logp": logp.tolist(), "proj": None}
             # the three read-outs of the distributional head on the same input must describe one distribution:
@@ -345,6 +413,10 @@ class C18(vlib.Driver):
             cl = logp_next.double().exp().clamp(min=1e-3)
             rec["head_dev"] = float((cl / cl.sum(-1, keepdim=True) - online.double()).abs().max())
             rec["head_lognorm"] = float(logp.double().exp().sum(-1).sub(1.0).abs().max())
+            if "v" in cap and "adv" in cap and tuple(cap["v"].shape) == (B, N) and tuple(cap["adv"].shape) == (B, A * N):
+                rec["duel"] = {"v": cap["v"][0].tolist(), "adv": cap["adv"][0].reshape(A, N).tolist()}
+            if part == "1" and N <= 21:          # softmax values (float64 exp of the log-distribution) for the model's clamp + renormalisation
+                rec["soft"] = logp_next.double().exp().tolist()
             rec["head_mass"] = float(max((online.double().sum(-1) - 1.0).abs().max(), (target.double().sum(-1) - 1.0).abs().max()))
             try:
                 rec["proj"] = self.read_projection(ag, b, gam[part], N, A).tolist()
@@ -357,15 +429,32 @@ class C18(vlib.Driver):
                 except Exception as e:  # noqa: BLE001
                     obs["errors"]["proj_rev" + part] = f"{type(e).__name__}: {e}"[:300]
             obs["parts"][part] = rec
+        # identical inputs in consecutive calls give identical element-wise losses (no state carried from call to call)
+        try:
+            e1 = ag._dqn_loss(b1["obs"], b1["action"], b1["reward"], b1["next_obs"], b1["done"], gam["1"]).detach().double()
+            e2 = ag._dqn_loss(b1["obs"], b1["action"], b1["reward"], b1["next_obs"], b1["done"], gam["1"]).detach().double()
+            obs["repeat_dev"] = float((e1 - e2).abs().max())
+        except Exception as e:  # noqa: BLE001
+            obs["errors"]["repeat"] = f"{type(e).__name__}: {e}"[:300]
         obs["prio"] = None
         import copy
+        keep = (b1.clone(), bn.clone())          # what the caller handed over
         snap = (copy.deepcopy(ag.actor.state_dict()), copy.deepcopy(ag.actor_target.state_dict()))   # weights and noise buffers
         try:
-            loss, idxs, prio = ag.learn(b1.clone(), n_experiences=(bn.clone() if case["mode"] != "one" else None), per=True)
+            loss, idxs, prio = ag.learn(b1, n_experiences=(bn if case["mode"] != "one" else None), per=True)
             obs["prio"] = [float(x) for x in np.asarray(prio).reshape(-1)]
             obs["loss"] = float(loss)
         except Exception as e:  # noqa: BLE001
             obs["errors"]["learn"] = f"{type(e).__name__}: {e}"[:300]
+        # learn() and _dqn_loss() must not write into the tensors they were handed
+        changed = []
+        for name, now, was in (("experiences", b1, keep[0]), ("n_experiences", bn, keep[1])):
+            for key in was.keys(True, True):
+                x, y = now.get(key, None), was.get(key)
+                if x is None or x.dtype != y.dtype or x.shape != y.shape or not torch.equal(x, y):
+                    changed.append(f"{name}[{key if isinstance(key, str) else '.'.join(key)}]")
+        obs["args_modified"] = changed
+        b1, bn = keep
         # the same agent (networks and noise restored to the state before learn) and the same batches, learn() called with
         # different importance weights: the returned priorities must not depend on the weights
         obs["weights"] = [float(x) for x in b1["weights"].reshape(-1)]
@@ -420,9 +509,17 @@ class C18(vlib.Driver):
         br = "[" + "; ".join("true" if n in flags else "false" for n in names) + "]"
         s1, sn = self.samples(self.rows_of(case, obs, "1"), p1), self.samples(self.rows_of(case, obs, "n"), pn)
         # the branch flags of the evidence histogram are re-derived by the model inside Coq and must coincide
-        return ("(let ss1 := %s in let ssn := %s in check_case %s %s %d%%nat %s %s ss1 ssn %s %s %s %s %s %s && branches_ok %s %s %d%%nat ss1 ssn %s)" % (
+        extra = ""
+        if "soft" in p1:      # the head's clamp + renormalisation, row by row
+            extra += " && head_ok %s %s" % (self.qmat([a for row in p1["soft"] for a in row]), self.qmat([a for row in p1["online"] for a in row]))
+        # (the dueling combination is modelled and proved (Dueling.v) but it is not part of C18's statement: it is tied by the
+        #  evidence label "dueling-identity" below, not by the verdict; Check.dueling_ok is the Coq-side comparison for manual use)
+        if obs.get("loss") is not None and obs["prio"] is not None:   # the scalar loss = mean(weight * element-wise loss)
+            extra += " && loss_ok %s %s %d%%nat %s ss1 ssn %s %s" % (cfg, coq_Q(case["gamma"]), case["nstep"], mode,
+                                                                  self.qlist(obs["weights"]), coq_Q(obs["loss"]))
+        return ("(let ss1 := %s in let ssn := %s in check_case %s %s %d%%nat %s %s ss1 ssn %s %s %s %s %s %s && branches_ok %s %s %d%%nat ss1 ssn %s" + extra.replace("%", "%%") + ")") % (
             s1, sn, cfg, coq_Q(case["gamma"]), case["nstep"], coq_Q(case["prior_eps"]), mode, self.qlist(obs["support"]),
-            self.qmat(p1["q"]), self.qmat(pn["q"]), optflat(p1), optflat(pn), prio, cfg, coq_Q(case["gamma"]), case["nstep"], br))
+            self.qmat(p1["q"]), self.qmat(pn["q"]), optflat(p1), optflat(pn), prio, cfg, coq_Q(case["gamma"]), case["nstep"], br)
         return ("check_case %s %s %d%%nat %s %s %s %s %s %s %s %s %s %s" % (
             cfg, coq_Q(case["gamma"]), case["nstep"], coq_Q(case["prior_eps"]), mode,
             self.samples(self.rows_of(case, obs, "1"), p1), self.samples(self.rows_of(case, obs, "n"), pn), self.qlist(obs["support"]),
@@ -515,6 +612,17 @@ class C18(vlib.Driver):
                                                  f"(mode {case['mode']}, n_step {case['nstep']}, importance weights {obs.get('weights')} "
                                                  f"shape {case.get('wshape', 'col')}) [{tag}]"))
                             break
+        if obs["prio"] is not None and obs.get("loss") is not None and len(obs["prio"]) == len(obs.get("weights", [])):
+            want = float(np.mean((np.asarray(obs["prio"], dtype=np.float64) - case["prior_eps"]) * np.asarray(obs["weights"], dtype=np.float64)))
+            if abs(obs["loss"] - want) > 1e-4 * (1.0 + abs(want)):
+                out.append(Violation("loss", f"loss:{case['mode']}", f"learn(per=True) returned loss {obs['loss']!r} but mean(weight * element-wise loss) = {want!r} "
+                                     f"(weights {obs['weights']}, priorities {obs['prio']}) [{tag}]"))
+        if obs.get("args_modified"):
+            out.append(Violation("args-unmodified", "args-modified:" + obs["args_modified"][0].split("[")[1].rstrip("]"),
+                                 f"learn(per=True) wrote into the batch it was handed: {obs['args_modified']} changed "
+                                 f"(mode {case['mode']}, dtypes {case.get('dtypes')}) [{tag}]"))
+        if obs.get("repeat_dev", 0.0) > 0.0:
+            out.append(Violation("repeatable", "repeatable", f"two consecutive _dqn_loss calls on identical inputs differ by {obs['repeat_dev']!r} [{tag}]"))
         # the priority is the plain cross-entropy: it does not depend on the importance weights of the batch
         if obs["prio"] is not None and obs.get("prio_alt") is not None:
             a, b = np.asarray(obs["prio"], dtype=np.float64), np.asarray(obs["prio_alt"], dtype=np.float64)
@@ -530,7 +638,8 @@ class C18(vlib.Driver):
         k = (case["N"], case["vmin"], case["vmax"], case["gamma"], case["nstep"], case["mode"], case["B"],
              tuple((r["cls"], r["d"]) for r in case["rows1"]), tuple((r["cls"], r["d"]) for r in case["rowsn"]),
              tuple(self.case_weights(case)), case.get("wshape", "col"),
-             case.get("prep", "fresh"), case.get("source", "direct"), case.get("obs_kind", "vector"))
+             case.get("prep", "fresh"), case.get("source", "direct"), case.get("obs_kind", "vector"),
+             tuple(case.get("dtypes", ())), bool(case.get("peaked")))
         return repr(k)
 
     def case_branches(self, case, obs):
@@ -574,6 +683,7 @@ class C18(vlib.Driver):
                 "weights=" + ("ones" if all(w == 1.0 for w in self.case_weights(case)) else "non-uniform"),
                 f"weights-shape={case.get('wshape', 'col')}"]
         labs += [f"prep={case.get('prep', 'fresh')}", f"source={case.get('source', 'direct')}", f"obs_kind={case.get('obs_kind', 'vector')}"]
+        labs += ["dtypes=" + "/".join(case.get("dtypes", ["float32", "float32", "int64"])), f"peaked={bool(case.get('peaked'))}"]
         if case["gamma"] == 0:
             labs.append("gamma=0")
         for part in ("1", "n"):
@@ -581,6 +691,12 @@ class C18(vlib.Driver):
                 labs.append(f"reward={r['cls']},done={int(r['d'])}")
         br = self.case_branches(case, obs)
         labs += [f"branch:{b}" for b in sorted(br)]
+        du = obs["parts"]["1"].get("duel")
+        if du:      # value + advantage - mean advantage reproduces the differences of the log-distribution (float64 recomputation)
+            v, adv, lp = np.asarray(du["v"]), np.asarray(du["adv"]), np.asarray(obs["parts"]["1"]["logp"][0])
+            lg = v[None, :] + adv - adv.mean(0, keepdims=True)
+            dev = np.abs((lg - lg[:, :1]) - (lp - lp[:, :1])).max()
+            labs.append("dueling-identity=" + ("holds" if dev <= 1e-4 * (1.0 + np.abs(lg).max()) else "differs"))
         if obs["errors"]:
             labs.append("impl-raised")
         return labs
